@@ -426,12 +426,20 @@ func (r *Run) runPath(w *worker, prefix []int32) {
 			case threadKill:
 				pc.status = "inconclusive"
 				pc.statusMsg = "thread kill escaped"
+			case childPanic:
+				pc.status = "panic"
+				pc.statusMsg = panicText(p.p)
 			default:
 				pc.status = "panic"
 				pc.statusMsg = panicText(p)
 				if _, raw := p.(runtime.Error); raw {
 					pc.statusMsg += " [raw engine runtime error]"
 				}
+			}
+		}()
+		defer func() {
+			if i.sched != nil {
+				i.sched.killAll()
 			}
 		}()
 		call(i, nil, token.NoPos, r.ld.Main.Func("init"), nil)
